@@ -21,12 +21,16 @@ def typed_literal_modules(py2):
     for fut in (False, True):
         for a, b in pairs:
             for na, nb in ((3, 3), (5, 1), (1, 5), (4, 4)):
-                for place in ('module', 'function'):
+                for place in ('module', 'function', 'documented'):
                     items = [a] * na + [b] * nb
                     body = 'values = [%s]\nprint([(type(v).__name__, v) for v in values])\n' % ', '.join(items)
                     if place == 'function':
                         body = 'def f():\n    values = [%s]\n    return [(type(v).__name__, v) for v in values]\nprint(f())\n' % ', '.join(items)
-                    src = ('from __future__ import unicode_literals\n' if fut else '') + body
+                    if place == 'documented':
+                        # the bodies that receive the alias assignments start with a docstring (and, for the module, the future statement): both must stay where they are
+                        body = ('def f():\n    "function docstring"\n    values = [%s]\n    return [(type(v).__name__, v) for v in values]\n'
+                                'more = [%s]\nprint(f())\nprint([(type(v).__name__, v) for v in more])\nprint((__doc__, f.__doc__))\n' % (', '.join(items), ', '.join(items)))
+                    src = ('"module docstring"\n' if place == 'documented' else '') + ('from __future__ import unicode_literals\n' if fut else '') + body
                     out.append(('typed:%s:%s+%s:%d+%d:%s' % ('fut' if fut else 'plain', a, b, na, nb, place), src))
     return out
 
@@ -66,7 +70,7 @@ def typed_literal_section(args, rep):
     import base64
     for rid, vd in sorted(verdicts.items()):
         t, a, v = srcs[rid]
-        rep.violation(key=rid + '|' + vd[0], clause='c06:alias-bound-to-a-value-of-another-type' if vd[0].startswith('c01:minified') else vd[0],
+        rep.violation(key=rid + '|' + vd[0], clause=('c06:docstring-or-value-changed-where-the-alias-assignments-were-placed' if ':documented|' in rid else 'c06:alias-bound-to-a-value-of-another-type') if vd[0].startswith('c01:minified') else vd[0],
                       what='%s\n%s--- output:\n%s' % (rid, t, base64.b64decode(a.get('out_b64', '')).decode('utf-8', 'replace')),
                       replay={'kind': 'minify', 'version': v, 'src_b64': inputs.b64(t.encode()), 'opts': {}})
     rep.extra['typed_literal_runs'] = len(records)
